@@ -16,6 +16,6 @@ CONSTANTS
   KeyShards <- NoKeyShards
   FaultBudget = 1
 VIEW View
-INVARIANTS InvDirValid InvHandle InvNoLeak InvErrOnlyIfFaulted
+INVARIANTS InvDirValid InvHandle InvNoLeak InvErrOnlyIfFaulted InvFdBound InvNoResidue
 PROPERTIES StepImmutable StepReadOnlyFirst StepRemoval StepRegister StepGetLin
 CHECK_DEADLOCK FALSE
